@@ -517,7 +517,7 @@ fn op_by_code(code: u64, rng: &mut Rng, z: &Zoned, other: &TimeZone) -> (String,
                 1 => jiff::tz::Offset::from_seconds((z.offset().seconds() + *rng.pick(&[3600i32, -3600, 1800, 1])).clamp(-93599, 93599)).unwrap(),
                 _ => *rng.pick(&[jiff::tz::Offset::MIN, jiff::tz::Offset::MAX, jiff::tz::Offset::UTC]),
             };
-            let oc = *rng.pick(&[jiff::tz::OffsetConflict::AlwaysTimeZone, jiff::tz::OffsetConflict::PreferOffset, jiff::tz::OffsetConflict::Reject]);
+            let oc = *rng.pick(&[jiff::tz::OffsetConflict::AlwaysTimeZone, jiff::tz::OffsetConflict::PreferOffset, jiff::tz::OffsetConflict::Reject, jiff::tz::OffsetConflict::AlwaysOffset]);
             (format!("with().offset({off}).offset_conflict({oc:?})"), guard(|| z.with().offset(off).offset_conflict(oc).build()), true, false)
         }
         19 => {
@@ -578,7 +578,15 @@ fn op_by_code_base(code: u64, rng: &mut Rng, z: &Zoned, other: &TimeZone, all: &
         }
         13 => {
             // print -> parse (RFC 9557) ; zones without IANA name are skipped by the caller
-            ("display->parse".into(), guard(|| z.to_string().parse::<Zoned>()), true, false)
+            // the Zulu form: the instant in UTC with the zone annotated (the offset of the text is not the
+            // zone's); a zone without a name prints as its offset, which parses to a different zone: the
+            // callers skip the round trip then
+            if let (Some(n), true) = (z.time_zone().iana_name(), rng.chance(1, 3)) {
+                let text = format!("{}[{}]", z.timestamp(), n);
+                ("zulu text->parse".into(), guard(|| text.parse::<Zoned>()), true, true)
+            } else {
+                ("display->parse".into(), guard(|| z.to_string().parse::<Zoned>()), true, false)
+            }
         }
         14 => ("datetime().to_zoned(tz)".into(), guard(|| z.datetime().to_zoned(z.time_zone().clone())), true, false),
         _ => ("with_time_zone(other)".into(), guard(|| Ok(z.with_time_zone(other.clone()))), false, true),
